@@ -292,6 +292,41 @@ pub fn drive(log: &mut Log) {
             run_one(log, "bd", &text, &alpha, &ks);
         }
     }
+    // (c) alphabet sweep: rank-transformed texts over dense integer alphabets 0..=max ending in the
+    //     sentinel 0, for every max around '$' (36) and around 255, with and without '$' in the alphabet
+    let maxes: Vec<u8> = (30..=40u8).chain([127u8, 128, 253, 254, 255].iter().cloned()).collect();
+    for &mx in &maxes {
+        for with_dollar in [false, true] {
+            if with_dollar && mx < 36 {
+                continue; // adding '$' would change the largest symbol
+            }
+            for variant in 0..log.opts.n(1, 3) {
+                case += 1;
+                if !log.mine(case) {
+                    continue;
+                }
+                let mut rng = Rng::new(seed, 15, case);
+                let mut alpha: Vec<u8> = (0..=mx).collect();
+                if !with_dollar {
+                    alpha.retain(|&c| c != b'$');
+                }
+                let letters: Vec<u8> = alpha.iter().cloned().filter(|&c| c != 0).collect();
+                let n = rng.range(2, 140) as usize;
+                let mut text: Vec<u8> = if variant % 2 == 0 {
+                    rng.seq(n - 1, &letters)
+                } else {
+                    // only a few of the symbols occur (most of the alphabet is absent), the largest one does
+                    let few = vec![letters[0], *rng.pick(&letters), *letters.last().unwrap()];
+                    rng.seq(n - 1, &few)
+                };
+                text.push(0);
+                let mut ks: Vec<u32> = vec![1, 3, 65];
+                ks.push(n as u32);
+                run_one(log, "alsw", &text, &alpha, &ks);
+                log.oblige("alphabet_max_symbol_sweep_around_dollar");
+            }
+        }
+    }
 }
 
 fn main() {
